@@ -70,7 +70,8 @@ theorem hostsL_append (a b : List HRange) : hostsL (a ++ b) = hostsL a ++ hostsL
 /-- POP: `hostlist_pop` hands out the last denoted host and leaves the rest, with any number of live
     iterators, in every variant (D20 is about what the ITERATORS see afterwards, not the list) -/
 theorem popE_hosts (cfg : Cfg) (e : EL) (hg : e.Good) (hf : ∀ r ∈ e.ranges, r.ShiftFits) :
-    ∃ e', popE cfg e = .ok (e.hosts.getLast?, e') ∧ e'.hosts = e.hosts.dropLast ∧ e'.Good := by
+    ∃ e', popE cfg e = .ok (e.hosts.getLast?, e') ∧ e'.hosts = e.hosts.dropLast ∧ e'.Good ∧
+      ∀ r ∈ e'.ranges, r.ShiftFits := by
   unfold popE
   have hhosts : e.hosts = hostsL e.ranges := rfl
   cases hl : e.rs.getLast? with
@@ -78,7 +79,7 @@ theorem popE_hosts (cfg : Cfg) (e : EL) (hg : e.Good) (hf : ∀ r ∈ e.ranges, 
     have hnil : e.rs = [] := List.getLast?_eq_none_iff.mp hl
     have h0 : e.nhosts = 0 := by
       have := hg.2; simpa [EL.hosts, EL.ranges, hnil] using this
-    refine ⟨e, ?_, ?_, hg⟩
+    refine ⟨e, ?_, ?_, hg, hf⟩
     · simp [h0, EL.hosts, EL.ranges, hnil]
     · simp [EL.hosts, EL.ranges, hnil]
   | some o =>
@@ -93,6 +94,7 @@ theorem popE_hosts (cfg : Cfg) (e : EL) (hg : e.Good) (hf : ∀ r ∈ e.ranges, 
     have hog : o.r.Good := hg.1 o.r (by rw [hranges]; simp)
     have hof : o.r.ShiftFits := hf o.r (by rw [hranges]; simp)
     have hAg : ∀ r ∈ e.rs.dropLast.map (·.r), r.Good := fun r hr => hg.1 r (by rw [hranges]; exact List.mem_append_left _ hr)
+    have hAf : ∀ r ∈ e.rs.dropLast.map (·.r), r.ShiftFits := fun r hr => hf r (by rw [hranges]; exact List.mem_append_left _ hr)
     obtain ⟨x, r', hp, hcase⟩ := hostrangePop_spec hog hof
     have hhosts' : e.hosts = hostsL (e.rs.dropLast.map (·.r)) ++ o.r.hosts := by
       rw [hhosts, hranges, hostsL_append]; simp [hostsL]
@@ -103,7 +105,7 @@ theorem popE_hosts (cfg : Cfg) (e : EL) (hg : e.Good) (hf : ∀ r ∈ e.ranges, 
       simp only [List.length_append] at h2
       omega
     simp only [hpos, ↓reduceIte, hp]
-    rcases hcase with ⟨hemp, hx⟩ | ⟨hemp, hg', _, hx⟩
+    rcases hcase with ⟨hemp, hx⟩ | ⟨hemp, hg', hf', hx⟩
     · simp only [hemp, ↓reduceIte]
       have hlast : e.hosts.getLast? = some x := by rw [hhosts', hx]; simp
       have hdrop : e.hosts.dropLast = hostsL (e.rs.dropLast.map (·.r)) := by rw [hhosts', hx]; simp
@@ -122,20 +124,22 @@ theorem popE_hosts (cfg : Cfg) (e : EL) (hg : e.Good) (hf : ∀ r ∈ e.ranges, 
           simp only [EL.ranges, List.map_append, List.map_cons, List.map_nil]
           have : e.rs.length - 1 = (e.rs.dropLast.map (·.r)).length := by simp
           rw [this, eraseIdx_mid]; simp
-        refine ⟨_, by rw [hlast], ?_, ?_, ?_⟩
+        refine ⟨_, by rw [hlast], ?_, ⟨?_, ?_⟩, ?_⟩
         · rw [hdrop]; show hostsL (deleteRange _ _ _).ranges = _; rw [hr]
         · rw [hr]; exact hAg
         · rw [hd.2]; show _ = ((hostsL (deleteRange _ _ _).ranges).length : Int); rw [hr]; exact hlen
+        · rw [hr]; exact hAf
       · simp only [hfix, Bool.false_eq_true, ↓reduceIte]
-        refine ⟨_, by rw [hlast], ?_, ?_, ?_⟩
+        refine ⟨_, by rw [hlast], ?_, ⟨?_, ?_⟩, ?_⟩
         · rw [hdrop]; rfl
         · exact hAg
         · exact hlen
+        · exact hAf
     · simp only [hemp, Bool.false_eq_true, ↓reduceIte]
       have hlast : e.hosts.getLast? = some x := by rw [hhosts', hx]; simp
       have hdrop : e.hosts.dropLast = hostsL (e.rs.dropLast.map (·.r)) ++ r'.hosts := by
         rw [hhosts', hx, ← List.append_assoc, List.dropLast_concat]
-      refine ⟨_, by rw [hlast], ?_, ?_, ?_⟩
+      refine ⟨_, by rw [hlast], ?_, ⟨?_, ?_⟩, ?_⟩
       · rw [hdrop]; simp [EL.hosts, EL.ranges, hostsL]
       · intro q hq
         simp only [EL.ranges, List.map_append, List.map_cons, List.map_nil, List.mem_append, List.mem_singleton] at hq
@@ -149,5 +153,39 @@ theorem popE_hosts (cfg : Cfg) (e : EL) (hg : e.Good) (hf : ∀ r ∈ e.ranges, 
           List.flatMap_cons, List.flatMap_nil, List.append_nil, List.length_append]
         simp only [hostsL] at h2
         omega
+      · intro q hq
+        simp only [EL.ranges, List.map_append, List.map_cons, List.map_nil, List.mem_append, List.mem_singleton] at hq
+        rcases hq with hq | rfl
+        · exact hAf q hq
+        · exact hf'
+
+/-- `while ((hostname = hostlist_pop(hltmp)))` hands out the denoted hosts, last first -/
+theorem popAll_spec (cfg : Cfg) : ∀ (f : Nat) (t : EL), t.Good → (∀ r ∈ t.ranges, r.ShiftFits) → t.hosts.length < f →
+    popAll cfg f t = .ok t.hosts.reverse
+  | 0, _, _, _, h => by omega
+  | f + 1, t, hg, hf, hlen => by
+    obtain ⟨t', hp, hh, hg', hf'⟩ := popE_hosts cfg t hg hf
+    unfold popAll
+    rw [hp]
+    cases hl : t.hosts.getLast? with
+    | none =>
+      have : t.hosts = [] := List.getLast?_eq_none_iff.mp hl
+      simp [this]
+    | some x =>
+      simp only
+      have hne : t.hosts ≠ [] := by intro h0; simp [h0] at hl
+      have hsplit : t.hosts = t.hosts.dropLast ++ [x] := by
+        have := List.dropLast_concat_getLast hne
+        rw [List.getLast?_eq_some_getLast hne] at hl
+        rw [Option.some.inj hl] at this
+        exact this.symm
+      have hlen' : t'.hosts.length < f := by
+        have hpos := List.length_pos_iff.mpr hne
+        rw [hh, List.length_dropLast]; omega
+      rw [popAll_spec cfg f t' hg' hf' hlen']
+      simp only
+      rw [hh]
+      conv => rhs; rw [hsplit]
+      simp
 
 end PdshVerif.Hostlist
